@@ -83,7 +83,7 @@ def norm_effects(seg):
     for e in seg:
         k = e[0]
         if k == "emit":
-            out.append("emit")
+            out.append("emit at=%s" % e[1])
         elif k == "add_alt":
             out.append("alt found=%s span=%s at=%s" % (e[1], e[2], e[3]))
         elif k == "add_alt_err":
